@@ -476,7 +476,7 @@ Definition xavg_exact (count total : Z) : Z :=
 (* binary floating point: round a positive rational to [prec] significant bits, ties to even
    (prec = 53: f64, the type the mean is computed in; prec = 24: f32, what it used to be) *)
 Open Scope Q_scope.
-Definition pow2 (e : Z) : Q := if (0 <=? e)%Z then inject_Z (2 ^ e) else 1 # (Z.to_pos (2 ^ (- e))).
+Definition pow2 (e : Z) : Q := Qpower 2 e.
 Definition round_half_even (q : Q) : Z :=
   let f := Qfloor q in
   match Qcompare (q - inject_Z f) (1 # 2) with
